@@ -107,12 +107,12 @@ THEOREM SwtShiftEquivariant ==
     <2>1. L \div 2 \in Int /\ d \in Int  BY EvenHalf DEF Pos
     <2> QED BY <2>1
   <1> HIDE DEF c
-  <1>2. ((n + s) % N + c) % N = ((n + s) + c) % N
+  <1>2. (((n + s) % N) + c) % N = ((n + s) + c) % N
     <2> DEFINE a == n + s
     <2>1. a \in Int  OBVIOUS
     <2> HIDE DEF a
     <2> QED BY <2>1, <1>1, ModAdd DEF a
-  <1>3. ((n + c) % N + s) % N = ((n + c) + s) % N
+  <1>3. (((n + c) % N) + s) % N = ((n + c) + s) % N
     <2> DEFINE a == n + c
     <2>1. a \in Int  BY <1>1
     <2> HIDE DEF a
